@@ -36,13 +36,14 @@ def evalRowVals (r : Row) : List (Expr × Expr) → List Val
 end
 
 mutual
-/-- no aggregate / window operator anywhere in the expression -/
+/-- no aggregate / window operator anywhere in the expression (element-wise operators take no
+    `partition_by` / `arrange`) -/
 def isEwise : Expr → Bool
   | .col _ _ _ => true
   | .lit _ _ => true
   | .cast e _ => isEwise e
   | .case bs d => isEwiseBranches bs && isEwiseOpt d
-  | .fn op args _ _ => opFtype op == .elementWise && isEwiseList args
+  | .fn op args part arr => opFtype op == .elementWise && isEwiseList args && part.isNone && arr.isEmpty
 def isEwiseList : List Expr → Bool
   | [] => true
   | e :: es => isEwise e && isEwiseList es
